@@ -70,6 +70,11 @@ def run(tier):
     with scratch() as base:
         for i in range(n):
             model = genlib.rand_model(r, ("sm", "sm", "sm", "proto", "uml", "uml", "uml"), big=r.random() < 0.3)
+            if i % 15 == 4:
+                import umlsynth
+                spec = umlsynth.rand_spec(r, focus="overloads")
+                model = dict(kind="uml", backend=r.choice(["uml", "uml", "umlcs"]), project=genlib.BLOB, diagram=spec["diagram"], ns_folders=r.random() < 0.5, dclspc="", synth=spec)
+                oc.stat("class_diagrams_with_overloads_by_default_values")
             if model["kind"] == "sm" and r.random() < 0.35:
                 model = genlib.share_a_name(r, model)
                 oc.stat("tables_with_a_name_in_two_roles")
